@@ -435,6 +435,7 @@ def rule_exclusive(ck: Check, repo: Repo) -> None:
     q = f"{P}.find_global_licensing"
     fn = repo.func(q)
     ck.analysed_fn(q)
+    mutated = bool(find_calls(fn, lambda c, f: f.startswith("candidates.")))
 
     class H(Hooks):
         def atom(self, text, node, it):
@@ -444,8 +445,8 @@ def rule_exclusive(ck: Check, repo: Repo) -> None:
                 return "tomls"
             if text == "[GlobalLicensingFound(root / '.reuse/dep5', ReuseDep5)]":
                 return True
-            if text == "[]":
-                return False
+            if text in ("[]", "candidates") and not mutated:
+                return False  # the accumulator is still the empty list it was initialised to
             if text == "not os.environ.get('_SUPPRESS_DEP5_WARNING')" or text == "os.environ.get('_SUPPRESS_DEP5_WARNING')":
                 return "@suppress"
             return None
@@ -464,7 +465,7 @@ def rule_exclusive(ck: Check, repo: Repo) -> None:
             if out[1] != "[GlobalLicensingFound(root / '.reuse/dep5', ReuseDep5)]":
                 r.violation(q, "dep5 candidate", f"{out}", repo.loc(fn))
         else:
-            if out[1] != "[]":
+            if out[1] not in ("[]", "candidates") or mutated:
                 r.violation(q, "no candidates", f"{out}", repo.loc(fn))
 
 
